@@ -144,8 +144,14 @@ impl BoundingSphereSolver for Epos6 {
             let dist = sphere.center.distance(bounding_sphere.center);
             let delta = 0.5 * (dist - bounding_sphere.radius + sphere.radius);
             if delta > 0. {
-                bounding_sphere.radius += delta;
-                bounding_sphere.center -= delta * (bounding_sphere.center - sphere.center) / dist;
+                if dist > 0. {
+                    bounding_sphere.radius += delta;
+                    bounding_sphere.center -=
+                        delta * (bounding_sphere.center - sphere.center) / dist;
+                } else {
+                    // Concentric spheres: there is no direction to move the center in.
+                    bounding_sphere.radius += 2. * delta;
+                }
             }
         }
 
